@@ -1,7 +1,8 @@
 /-
 C20 — the engine API classifies results and resolves files consistently.
 
-Property theorems only (helper lemmas: Arca/Proofs/EngineApi.lean, Arca/Proofs/EngineApiParse.lean).  The model is
+Property theorems only (helper lemmas: Arca/Proofs/EngineApi.lean, Arca/Proofs/EngineApiParse.lean,
+Arca/Proofs/EngineApiSupplied.lean).  The model is
 `Arca.Model.EngineApi`: `Parse` / `RunWorkflow` / `Run` of engine.go, the file cache of loadfile/loadfile.go, stage 6 of
 `Executor.Prepare` (output schemas) and the CLI's exit codes.  Everything outside the entry point — the YAML converter,
 the file system, stages 1-5 of `Prepare`, `Execute` — is a parameter `env : Env P I D`; every theorem holds for every
@@ -12,12 +13,17 @@ What is NOT proved here and why:
   resolves relative paths against the process working directory (finding F14, see `cwd_call_sites_pinned`); the
   independence from the working directory is therefore stated for the entry point (`abs` is applied to the root
   directory only) and checked on the real code by the `engineapi` stream;
-* `engine_equals_direct` holds for every cache for which `Parse` gets past its file stage.  Since the fix of finding
-  F15 (`MergeFileCaches` compares root directories with `sameDirectory`) the file stage no longer depends on how the
-  root directory is spelled: `any_root_accepted`, `relative_root_accepted` (hypothesis: `filepath.Abs` is idempotent,
-  a property of the real function).
+* `engine_equals_direct` holds for every cache for which `Parse` gets past its file stage and its check for reference
+  cycles (`Prepare` is a total function here; the real one never returns on a reference cycle, which is why `Parse`
+  checks the contents it is going to prepare: `parse_rejects_cycles_in_used_files`, `prepared_contents_acyclic`).
+  Since the fix of finding F15 (`MergeFileCaches` compares root directories with `sameDirectory`) the file stage no
+  longer depends on how the root directory is spelled: `any_root_accepted`, `relative_root_accepted` (hypothesis:
+  `filepath.Abs` is idempotent, a property of the real function).  Since `Parse` hands the caller's cache to the
+  sub-workflow discovery, the files the caller supplies are not read from disk: `supplied_cache_ignores_disk`,
+  `engine_equals_direct_supplied`, `engine_equals_direct_supplied_acyclic`; the former behaviour is
+  `memory_cache_needed_disk` (the model with `passSupplied = false`).
 -/
-import Arca.Proofs.EngineApiParse
+import Arca.Proofs.EngineApiSupplied
 import Arca.Gen.EngineApi
 import Arca.Gen.Unknown
 import Arca.Expected.EngineApi
@@ -107,39 +113,44 @@ theorem runWorkflow_parse_error_is_error (env : Env P I D) (fuel : Nat) (files :
 /-- The empty file name means "workflow.yaml": both spellings give the same result, for every cache and input. -/
 theorem default_file_name (env : Env P I D) (fuel : Nat) (files : FileCache) (input : String) :
     runWorkflow env fuel files "" input = runWorkflow env fuel files "workflow.yaml" input := by
-  simp [runWorkflow, parse, parseFiles, defaultName]
+  simp [runWorkflow, parse, parseWith, parseFilesWith, defaultName]
 
 /-- A cache without the workflow file is `ErrNoWorkflowFile`, whatever else it contains. -/
 theorem missing_workflow_file (env : Env P I D) (fuel : Nat) (files : FileCache) (name input : String)
     (h : getFile (defaultName name) files.files = none) :
     (runWorkflow env fuel files name input).err = some .noWorkflowFile := by
-  simp [runWorkflow, parse, parseFiles, h, errResult]
+  simp [runWorkflow, parse, parseWith, parseFilesWith, h, errResult]
 
 /-! ### engine path = direct path -/
 
-/-- Once the file stage of `Parse` has produced the workflow `wf` and the merged cache `m`, and the version is
-    supported, `RunWorkflow` is: prepare `wf` on the contents of `m`, execute, classify — i.e. the direct path on the
-    merged cache. -/
+/-- Once the file stage of `Parse` has produced the workflow `wf` and the merged cache `m`, the contents of `m` have
+    passed the check for reference cycles and the version is supported, `RunWorkflow` is: prepare `wf` on the contents
+    of `m`, execute, classify — i.e. the direct path on the merged cache. -/
 theorem engine_equals_direct (env : Env P I D) (fuel : Nat) (files : FileCache) (name input : String)
     (wf : Wf) (m : FileCache) (hf : parseFiles env fuel files name = .ok (wf, m))
+    (hc : checkCycles env.fromYAML fuel wf m.contents [] = .ok ())
     (hv : supportedVersion wf.version = true) :
     runWorkflow env fuel files name input = direct env wf m.contents input := by
-  simp only [runWorkflow, parse, hf, hv, if_true, direct]
+  have hf' : parseFilesWith env true fuel files name = .ok (wf, m) := hf
+  simp only [runWorkflow, parse, parseWith, hf', hc, hv, if_true, direct]
   cases prepare env wf m.contents <;> rfl
 
-/-- The only thing the engine front end adds to the direct path is the version check. -/
+/-- Besides the check for reference cycles the only thing the engine front end adds to the direct path is the version
+    check. -/
 theorem unsupported_version_rejected (env : Env P I D) (fuel : Nat) (files : FileCache) (name input : String)
     (wf : Wf) (m : FileCache) (hf : parseFiles env fuel files name = .ok (wf, m))
+    (hc : checkCycles env.fromYAML fuel wf m.contents [] = .ok ())
     (hv : supportedVersion wf.version = false) :
     (runWorkflow env fuel files name input).err = some .unsupportedVersion := by
-  simp [runWorkflow, parse, hf, hv, errResult]
+  have hf' : parseFilesWith env true fuel files name = .ok (wf, m) := hf
+  simp [runWorkflow, parse, parseWith, hf', hc, hv, errResult]
 
 /-- In the merged cache the caller's own entries win over the copies discovered on disk: every key of the caller's
     cache keeps its entry (so a workflow without foreach steps sees exactly the caller's cache). -/
-theorem caller_copy_wins (env : Env P I D) (fuel : Nat) (files : FileCache) (name : String) (wf : Wf) (m : FileCache)
-    (hf : parseFiles env fuel files name = .ok (wf, m)) (k : String) (v : CtxFile)
+theorem caller_copy_wins (env : Env P I D) (passSupplied : Bool) (fuel : Nat) (files : FileCache) (name : String) (wf : Wf)
+    (m : FileCache) (hf : parseFilesWith env passSupplied fuel files name = .ok (wf, m)) (k : String) (v : CtxFile)
     (hk : getFile k files.files = some v) : getFile k m.files = some v := by
-  unfold parseFiles at hf
+  unfold parseFilesWith at hf
   split at hf
   · cases hf
   · split at hf
@@ -157,14 +168,156 @@ theorem caller_copy_wins (env : Env P I D) (fuel : Nat) (files : FileCache) (nam
           rw [this]
           simp [lastWins, hk]
 
+/-! ### reference cycles in the files that are going to be used -/
+
+/-- If the contents `Parse` is going to prepare — the discovered files overridden by the caller's — contain a reference
+    cycle (by key) that is reachable from the root workflow, `Parse` returns an error: the cycle, or a file that does not
+    convert, or the model's fuel; never a result of `Prepare`, which would not return on such contents.  The proof uses
+    the check `Parse` runs on the merged contents only, not how discovery found them: it holds whether or not discovery
+    is handed the caller's cache (a caller-supplied cyclic copy over an acyclic copy on disk, which discovery did not
+    follow before it was, see `cyclic_copy_over_acyclic_disk_copy`). -/
+theorem parse_rejects_cycles_in_used_files (env : Env P I D) (passSupplied : Bool) (fuel : Nat) (files : FileCache)
+    (name : String) (wf : Wf) (m : FileCache) (hf : parseFilesWith env passSupplied fuel files name = .ok (wf, m))
+    (q : String) (hq : KeyReach env.fromYAML (fun k => lookup k m.contents) wf q)
+    (hcyc : OnCycle env.fromYAML (fun k => lookup k m.contents) q) :
+    ∃ e, parseWith env passSupplied fuel files name = .error e ∧ FollowErr e := by
+  cases hc : checkCycles env.fromYAML fuel wf m.contents [] with
+  | ok u => exact absurd hcyc (checkCycles_sound env.fromYAML m.contents fuel wf [] hc q hq).2
+  | error e =>
+    refine ⟨e, ?_, checkCycles_error_kind env.fromYAML m.contents fuel wf [] e hc⟩
+    simp only [parseWith, hf, hc]
+
+/-- The same, read from the other side: whatever `Parse` hands to `Prepare` has no reference cycle that is reachable
+    from the root workflow. -/
+theorem prepared_contents_acyclic (env : Env P I D) (passSupplied : Bool) (fuel : Nat) (files : FileCache) (name : String)
+    (wf : Wf) (p : P) (hp : parseWith env passSupplied fuel files name = .ok (wf, p)) :
+    ∃ m, parseFilesWith env passSupplied fuel files name = .ok (wf, m) ∧ prepare env wf m.contents = .ok p ∧
+      ∀ q, KeyReach env.fromYAML (fun k => lookup k m.contents) wf q →
+        ¬ OnCycle env.fromYAML (fun k => lookup k m.contents) q := by
+  unfold parseWith at hp
+  split at hp
+  · cases hp
+  · rename_i wf' m hf
+    split at hp
+    · cases hp
+    · rename_i hc
+      split at hp
+      · split at hp
+        · cases hp
+        · rename_i p' hprep
+          cases hp
+          exact ⟨m, hf, hprep, fun q hq => (checkCycles_sound env.fromYAML m.contents fuel wf [] hc q hq).2⟩
+      · cases hp
+
+/-! ### files the caller supplies -/
+
+/-- For a cache that supplies every (transitively) referenced file, the file stage of `Parse` is the check for reference
+    cycles on the contents of that cache and, if it finds none, returns the caller's cache unchanged.  Nothing is read
+    from disk: the right-hand side mentions neither the file system nor `filepath.Abs` nor the root directory. -/
+theorem parseFiles_supplied (env : Env P I D) (fuel : Nat) (files : FileCache) (name : String) (cf : CtxFile) (wf : Wf)
+    (hc : getFile (defaultName name) files.files = some cf) (hy : env.fromYAML cf.content = some wf)
+    (hsup : SuppliesAll env.fromYAML files wf) :
+    parseFiles env fuel files name =
+      match checkCycles env.fromYAML fuel wf files.contents [] with
+      | .ok () => .ok (wf, files)
+      | .error e => .error e := by
+  simp only [parseFiles, parseFilesWith, hc, hy, if_true,
+    supplied_discovery_is_cycle_check env files files.rootDir fuel wf [] hsup]
+  cases checkCycles env.fromYAML fuel wf files.contents [] with
+  | error e => rfl
+  | ok u => cases u; rfl
+
+/-- … and `RunWorkflow` is: check the supplied contents for reference cycles, check the version, then the direct path
+    on the caller's own cache. -/
+theorem runWorkflow_supplied (env : Env P I D) (fuel : Nat) (files : FileCache) (name input : String) (cf : CtxFile) (wf : Wf)
+    (hc : getFile (defaultName name) files.files = some cf) (hy : env.fromYAML cf.content = some wf)
+    (hsup : SuppliesAll env.fromYAML files wf) :
+    runWorkflow env fuel files name input =
+      match checkCycles env.fromYAML fuel wf files.contents [] with
+      | .error e => errResult e
+      | .ok () => if supportedVersion wf.version then direct env wf files.contents input else errResult .unsupportedVersion := by
+  have hpf : parseFilesWith env true fuel files name = _ := parseFiles_supplied env fuel files name cf wf hc hy hsup
+  simp only [runWorkflow, parse, parseWith, hpf]
+  cases hck : checkCycles env.fromYAML fuel wf files.contents [] with
+  | error e => rfl
+  | ok u =>
+    cases u
+    simp only [hck]
+    by_cases hv : supportedVersion wf.version = true
+    · simp only [hv, if_true, direct]
+      cases prepare env wf files.contents <;> rfl
+    · simp only [hv]
+      rfl
+
+/-- The strengthening of the former `engine_equals_direct_partial` (which needed a workflow without foreach steps): for a
+    cache that supplies every transitively referenced file and passes the check for reference cycles, the engine result
+    is the direct result on the caller's own cache — the files need not be on disk, the root directory need not exist. -/
+theorem engine_equals_direct_supplied (env : Env P I D) (fuel : Nat) (files : FileCache) (name input : String)
+    (cf : CtxFile) (wf : Wf) (hc : getFile (defaultName name) files.files = some cf)
+    (hy : env.fromYAML cf.content = some wf) (hsup : SuppliesAll env.fromYAML files wf)
+    (hcyc : checkCycles env.fromYAML fuel wf files.contents [] = .ok ())
+    (hv : supportedVersion wf.version = true) :
+    runWorkflow env fuel files name input = direct env wf files.contents input := by
+  rw [runWorkflow_supplied env fuel files name input cf wf hc hy hsup, hcyc]
+  simp [hv]
+
+/-- … and when the check fails, its error (a cycle, a file that does not convert, the model's fuel) is the result. -/
+theorem supplied_cycle_reported (env : Env P I D) (fuel : Nat) (files : FileCache) (name input : String)
+    (cf : CtxFile) (wf : Wf) (hc : getFile (defaultName name) files.files = some cf)
+    (hy : env.fromYAML cf.content = some wf) (hsup : SuppliesAll env.fromYAML files wf) (e : Err)
+    (hcyc : checkCycles env.fromYAML fuel wf files.contents [] = .error e) :
+    runWorkflow env fuel files name input = errResult e ∧ FollowErr e := by
+  rw [runWorkflow_supplied env fuel files name input cf wf hc hy hsup, hcyc]
+  exact ⟨rfl, checkCycles_error_kind env.fromYAML files.contents fuel wf [] e hcyc⟩
+
+/-- The same without reference to the check: when the supplied files convert and some `rank` decreases along every
+    reference between them (no cycle), and the fuel of the model exceeds the ranks, engine = direct. -/
+theorem engine_equals_direct_supplied_acyclic (env : Env P I D) (fuel : Nat) (files : FileCache) (name input : String)
+    (cf : CtxFile) (wf : Wf) (hc : getFile (defaultName name) files.files = some cf)
+    (hy : env.fromYAML cf.content = some wf) (hsup : SuppliesAll env.fromYAML files wf)
+    (rank : String → Nat) (hr : Ranked env.fromYAML (fun k => lookup k files.contents) rank wf)
+    (n : Nat) (hn : ∀ r ∈ wf.refs, rank r < n) (hfuel : n < fuel)
+    (hv : supportedVersion wf.version = true) :
+    runWorkflow env fuel files name input = direct env wf files.contents input :=
+  engine_equals_direct_supplied env fuel files name input cf wf hc hy hsup
+    (checkCycles_complete env.fromYAML files.contents rank fuel wf [] n hr hn hfuel (fun p hp => by cases hp)) hv
+
+/-- For a cache that supplies every transitively referenced file the result does not depend on the file system, on
+    `filepath.Abs` (the working directory) or on the path functions: `Parse` does not read the disk at all. -/
+theorem supplied_cache_ignores_disk (env : Env P I D) (fuel : Nat) (files : FileCache) (name input : String)
+    (cf : CtxFile) (wf : Wf) (hc : getFile (defaultName name) files.files = some cf)
+    (hy : env.fromYAML cf.content = some wf) (hsup : SuppliesAll env.fromYAML files wf)
+    (readFile' : String → Option String) (abs' : String → String) (isAbs' : String → Bool) (join' : String → String → String) :
+    runWorkflow { env with readFile := readFile', abs := abs', isAbs := isAbs', join := join' } fuel files name input =
+      runWorkflow env fuel files name input := by
+  rw [runWorkflow_supplied env fuel files name input cf wf hc hy hsup,
+    runWorkflow_supplied { env with readFile := readFile', abs := abs', isAbs := isAbs', join := join' } fuel files name input
+      cf wf hc hy hsup]
+  rfl
+
 /-- `engine_equals_direct` for a workflow without foreach steps: no file stage hypothesis is needed, the engine result
     is the direct result on the caller's own cache (whatever its root directory is). -/
 theorem engine_equals_direct_partial (env : Env P I D) (fuel : Nat) (files : FileCache) (name input : String)
     (cf : CtxFile) (wf : Wf) (hc : getFile (defaultName name) files.files = some cf)
     (hy : env.fromYAML cf.content = some wf) (hr : wf.refs = []) (hv : supportedVersion wf.version = true) :
     runWorkflow env (fuel + 1) files name input = direct env wf files.contents input := by
-  apply engine_equals_direct env (fuel + 1) files name input wf files _ hv
-  simp [parseFiles, hc, hy, subworkflowCache_no_refs env fuel wf files.rootDir [] [] hr]
+  apply engine_equals_direct_supplied env (fuel + 1) files name input cf wf hc hy _ _ hv
+  · intro q hq
+    cases hq with
+    | direct h => rw [hr] at h; cases h
+    | trans h _ _ _ => rw [hr] at h; cases h
+  · simp [checkCycles, hr]
+
+/-- Before `Parse` handed the caller's cache to the discovery (the model with `passSupplied = false`), every referenced
+    file was read from disk even when the caller supplied it: a cache for a directory that is not on disk failed with a
+    read error although direct preparation of the same files succeeds (the former finding
+    `C20:memory-cache-needs-disk`). -/
+theorem memory_cache_needed_disk (env : Env P I D) (fuel : Nat) (files : FileCache) (name : String)
+    (cf : CtxFile) (wf : Wf) (hc : getFile (defaultName name) files.files = some cf)
+    (hy : env.fromYAML cf.content = some wf) (hrefs : wf.refs ≠ []) (hdisk : ∀ p, env.readFile p = none) :
+    parseWith env false (fuel + 1) files name = .error .readError := by
+  simp [parseWith, parseFilesWith, hc, hy,
+    subworkflowCache_without_supplied_reads_disk env fuel wf files.rootDir [] [] hrefs hdisk]
 
 /-! ### working directory -/
 
@@ -177,40 +330,41 @@ theorem engine_equals_direct_partial (env : Env P I D) (fuel : Nat) (files : Fil
 theorem cwd_independent (env : Env P I D) (f g : String → String) (fuel : Nat) (files : FileCache) (name input : String)
     (h : f files.rootDir = g files.rootDir) (h' : f (f files.rootDir) = g (f files.rootDir)) :
     runWorkflow (withAbs env f) fuel files name input = runWorkflow (withAbs env g) fuel files name input := by
-  have hsub : ∀ wf, subworkflowCache (withAbs env f) fuel wf files.rootDir [] [] =
-      subworkflowCache (withAbs env g) fuel wf files.rootDir [] [] := fun wf =>
-    subworkflowCache_withAbs env f g files.rootDir h fuel wf [] [] (fun c hc => by cases hc)
-  have hmerge : ∀ wf sc, subworkflowCache (withAbs env g) fuel wf files.rootDir [] [] = .ok (some sc) →
+  have hsub : ∀ wf, subworkflowCache (withAbs env f) fuel wf files.rootDir [] [] (some files) =
+      subworkflowCache (withAbs env g) fuel wf files.rootDir [] [] (some files) := fun wf =>
+    subworkflowCache_withAbs env f g files.rootDir h (some files) fuel wf [] [] (sorted_nil _)
+  have hmerge : ∀ wf sc, subworkflowCache (withAbs env g) fuel wf files.rootDir [] [] (some files) = .ok (some sc) →
       mergeFileCaches f [some sc, some files] = mergeFileCaches g [some sc, some files] := by
     intro wf sc hs
-    have hroot : sc.rootDir = g files.rootDir := subworkflowCache_root (withAbs env g) fuel wf files.rootDir [] [] sc hs
-    have hsame : sameDirectory f sc.rootDir files.rootDir = sameDirectory g sc.rootDir files.rootDir := by
-      unfold sameDirectory
-      rw [hroot, ← h, h', h]
+    have hroot : RootOk (g files.rootDir) [] sc :=
+      subworkflowCache_root (withAbs env g) files.rootDir (some files) fuel wf [] [] sc (sorted_nil _) hs
     simp only [mergeFileCaches, mergeFrom]
     rw [mergeStep_pass (Or.inl rfl), mergeStep_pass (Or.inl rfl)]
-    simp only [mergeStep, hsame]
-  cases hg : getFile (defaultName name) files.files with
-  | none => simp [runWorkflow, parse, parseFiles, hg]
-  | some cf =>
-    have hyaml : (withAbs env f).fromYAML cf.content = (withAbs env g).fromYAML cf.content := rfl
-    cases hy : (withAbs env g).fromYAML cf.content with
-    | none => simp [runWorkflow, parse, parseFiles, hg, hyaml, hy]
-    | some wf =>
-      cases hs : subworkflowCache (withAbs env g) fuel wf files.rootDir [] [] with
-      | error e => simp [runWorkflow, parse, parseFiles, hg, hyaml, hy, hsub, hs]
-      | ok o =>
-        cases o with
-        | none =>
-          simp only [runWorkflow, parse, parseFiles, hg, hyaml, hy, hsub, hs]
-          rfl
-        | some sc =>
-          have hm := hmerge wf sc hs
-          simp only [runWorkflow, parse, parseFiles, hg, hyaml, hy, hsub, hs]
-          have hm' : mergeFileCaches (withAbs env f).abs [some sc, some files] =
-              mergeFileCaches (withAbs env g).abs [some sc, some files] := hm
-          rw [hm']
-          rfl
+    rcases hroot with hroot | ⟨hroot, _⟩
+    · have hsame : sameDirectory f sc.rootDir files.rootDir = sameDirectory g sc.rootDir files.rootDir := by
+        unfold sameDirectory
+        rw [hroot, ← h, h', h]
+      simp only [mergeStep, hsame]
+    · simp [mergeStep, hroot]
+  have hpf : parseFilesWith (withAbs env f) true fuel files name = parseFilesWith (withAbs env g) true fuel files name := by
+    cases hg : getFile (defaultName name) files.files with
+    | none => simp [parseFilesWith, hg]
+    | some cf =>
+      have hyaml : (withAbs env f).fromYAML cf.content = (withAbs env g).fromYAML cf.content := rfl
+      cases hy : (withAbs env g).fromYAML cf.content with
+      | none => simp [parseFilesWith, hg, hyaml, hy]
+      | some wf =>
+        cases hs : subworkflowCache (withAbs env g) fuel wf files.rootDir [] [] (some files) with
+        | error e => simp [parseFilesWith, hg, hyaml, hy, hsub, hs]
+        | ok o =>
+          cases o with
+          | none => simp only [parseFilesWith, hg, hyaml, hy, hsub, hs, if_true]
+          | some sc =>
+            have hm : mergeFileCaches (withAbs env f).abs [some sc, some files] =
+                mergeFileCaches (withAbs env g).abs [some sc, some files] := hmerge wf sc hs
+            simp only [parseFilesWith, hg, hyaml, hy, hsub, hs, if_true, hm]
+  simp only [runWorkflow, parse, parseWith, hpf]
+  rfl
 
 /-! ### MergeFileCaches -/
 
@@ -343,19 +497,21 @@ theorem merge_empty_root_order_dependent (abs : String → String) (r : String) 
 theorem any_root_accepted (env : Env P I D) (fuel : Nat) (files : FileCache) (name : String)
     (cf : CtxFile) (wf : Wf) (sc : FileCache) (hidem : AbsIdempotent env)
     (hc : getFile (defaultName name) files.files = some cf) (hy : env.fromYAML cf.content = some wf)
-    (hs : subworkflowCache env fuel wf files.rootDir [] [] = .ok (some sc)) :
+    (hs : subworkflowCache env fuel wf files.rootDir [] [] (some files) = .ok (some sc)) :
     parseFiles env fuel files name =
       .ok (wf, { rootDir := files.rootDir, files := putAll files.files (putAll sc.files []) }) := by
-  have hroot := subworkflowCache_root env fuel wf files.rootDir [] [] sc hs
+  have hroot := subworkflowCache_root env files.rootDir (some files) fuel wf [] [] sc (sorted_nil _) hs
   have hm : mergeFileCaches env.abs [some sc, some files] =
       .ok { rootDir := files.rootDir, files := putAll files.files (putAll sc.files []) } := by
     simp only [mergeFileCaches, mergeFrom]
     rw [mergeStep_pass (Or.inl rfl)]
     simp only
-    rw [mergeStep_pass (Or.inr ((sameDirectory_iff env.abs _ _).mpr (Or.inr (by
-      show env.abs sc.rootDir = env.abs files.rootDir
-      rw [hroot, hidem]))))]
-  simp [parseFiles, hc, hy, hs, hm]
+    rcases hroot with hroot | ⟨hroot, _⟩
+    · rw [mergeStep_pass (Or.inr ((sameDirectory_iff env.abs _ _).mpr (Or.inr (by
+        show env.abs sc.rootDir = env.abs files.rootDir
+        rw [hroot, hidem]))))]
+    · simp [mergeStep, hroot]
+  simp [parseFiles, parseFilesWith, hc, hy, hs, hm]
 
 /-- F15 fixed, in the model: a cache whose root directory is any spelling of a directory gives the same result as the
     cache with the canonical absolute spelling of that directory. -/
@@ -363,31 +519,38 @@ theorem relative_root_accepted (env : Env P I D) (fuel : Nat) (files : FileCache
     (hidem : AbsIdempotent env) :
     runWorkflow env fuel files name input =
       runWorkflow env fuel { rootDir := env.abs files.rootDir, files := files.files } name input := by
-  have hcongr := subworkflowCache_root_congr env files.rootDir (env.abs files.rootDir) (hidem files.rootDir).symm fuel
+  have hcongr : ∀ wf, subworkflowCache env fuel wf files.rootDir [] [] (some files) =
+      subworkflowCache env fuel wf (env.abs files.rootDir) [] []
+        (some { rootDir := env.abs files.rootDir, files := files.files }) := fun wf => by
+    rw [subworkflowCache_root_congr env files.rootDir (env.abs files.rootDir) (hidem files.rootDir).symm (some files) fuel]
+    exact subworkflowCache_supplied_congr env files { rootDir := env.abs files.rootDir, files := files.files } rfl
+      (env.abs files.rootDir) fuel wf [] []
   cases hg : getFile (defaultName name) files.files with
-  | none => simp [runWorkflow, parse, parseFiles, hg]
+  | none => simp [runWorkflow, parse, parseWith, parseFilesWith, hg]
   | some cf =>
     cases hy : env.fromYAML cf.content with
-    | none => simp [runWorkflow, parse, parseFiles, hg, hy]
+    | none => simp [runWorkflow, parse, parseWith, parseFilesWith, hg, hy]
     | some wf =>
-      cases hs : subworkflowCache env fuel wf files.rootDir [] [] with
+      cases hs : subworkflowCache env fuel wf files.rootDir [] [] (some files) with
       | error e =>
         have hs' := hs
         rw [hcongr] at hs'
-        simp [runWorkflow, parse, parseFiles, hg, hy, hs, hs']
+        simp [runWorkflow, parse, parseWith, parseFilesWith, hg, hy, hs, hs']
       | ok o =>
         cases o with
         | none =>
           have hs' := hs
           rw [hcongr] at hs'
-          simp [runWorkflow, parse, parseFiles, hg, hy, hs, hs', FileCache.contents]
+          simp [runWorkflow, parse, parseWith, parseFilesWith, hg, hy, hs, hs', FileCache.contents]
         | some sc =>
           have hs' := hs
           rw [hcongr] at hs'
-          have p₁ := any_root_accepted env fuel files name cf wf sc hidem hg hy hs
-          have p₂ := any_root_accepted env fuel { rootDir := env.abs files.rootDir, files := files.files } name cf wf sc
-            hidem hg hy hs'
-          simp only [runWorkflow, parse, p₁, p₂, FileCache.contents]
+          have p₁ : parseFilesWith env true fuel files name = _ :=
+            any_root_accepted env fuel files name cf wf sc hidem hg hy hs
+          have p₂ : parseFilesWith env true fuel { rootDir := env.abs files.rootDir, files := files.files } name = _ :=
+            any_root_accepted env fuel { rootDir := env.abs files.rootDir, files := files.files } name cf wf sc
+              hidem hg hy hs'
+          simp only [runWorkflow, parse, parseWith, p₁, p₂, FileCache.contents]
 
 end
 
@@ -521,5 +684,123 @@ example : Agree [some (demoCache "/ctx"), none, some (demoCache "/ctx")] := by
   rw [g₁] at g₂
   cases g₂
   rfl
+
+/-! #### files the caller supplies, reference cycles -/
+
+def demoMid : Wf :=
+  { version := "v0.2.0"
+    refs := ["leaf.yaml"]
+    outputs := ["success"]
+    declared := none }
+
+/-- a sub-workflow that references the key `sub.yaml`: stored under that key it references itself -/
+def demoCyc : Wf :=
+  { version := "v0.2.0"
+    refs := ["sub.yaml"]
+    outputs := ["success"]
+    declared := none }
+
+def demoRoot2 : Wf :=
+  { version := "v0.2.0"
+    refs := ["sub.yaml", "other.yaml"]
+    outputs := ["success", "error"]
+    declared := none }
+
+/-- like `demoEnv`, with more file contents and the disk given as a table absolute path -> content -/
+def demoEnv2 (disk : List (String × String)) : Env (List String) String String :=
+  { fromYAML := fun c =>
+      if c = "ROOT" then some demoRoot else if c = "ROOT2" then some demoRoot2 else if c = "SUB" then some demoSub
+      else if c = "MID" then some demoMid else if c = "CYC" then some demoCyc else none
+    abs := cliAbs
+    isAbs := fun s => s.startsWith "/"
+    join := fun a b => a ++ "/" ++ b
+    readFile := fun p => lookup p disk
+    prepareSteps := fun wf ctx => if wf.refs.all (fun r => (lookup r ctx).isSome) then some (ctx.map (·.1)) else none
+    decodeInput := fun s => some s
+    execute := fun _ i => some (i, "data") }
+
+/-- `loadfile.NewFileCache(root, {"workflow.yaml": rootText, subs…})` -/
+def memCache (root rootText : String) (subs : List (String × String)) : FileCache :=
+  { rootDir := root
+    files := (("workflow.yaml", rootText) :: subs).map (fun kc => (kc.1, { id := kc.1, absPath := kc.1, content := kc.2 })) }
+
+def resultTriple (r : Result String) : String × Bool × Option Err := (r.outputID, r.isError, r.err)
+
+-- every file supplied, nothing on disk (the directory does not exist): the run succeeds and equals the direct path …
+example : resultTriple (runWorkflow (demoEnv2 []) 5 (memCache "/absent" "ROOT" [("sub.yaml", "SUB")]) "" "success") =
+      ("success", false, none) ∧
+    resultTriple (direct (demoEnv2 []) demoRoot (memCache "/absent" "ROOT" [("sub.yaml", "SUB")]).contents "success") =
+      ("success", false, none) := by decide +kernel
+-- … while the discovery that is not handed the caller's cache fails reading the file (the former finding)
+example : (match parseWith (demoEnv2 []) false 5 (memCache "/absent" "ROOT" [("sub.yaml", "SUB")]) "" with
+    | .error .readError => true
+    | _ => false) = true := by decide +kernel
+-- the hypotheses of engine_equals_direct_supplied / _acyclic / supplied_cache_ignores_disk are satisfiable
+example : SuppliesAll (demoEnv2 []).fromYAML (memCache "/absent" "ROOT" [("sub.yaml", "SUB")]) demoRoot := by
+  intro q hq
+  cases hq with
+  | direct h =>
+    simp only [demoRoot, List.mem_singleton] at h
+    subst h
+    exact ⟨_, rfl⟩
+  | trans h hl hw hr =>
+    simp only [demoRoot, List.mem_singleton] at h
+    subst h
+    have hc : (lookup "sub.yaml" (memCache "/absent" "ROOT" [("sub.yaml", "SUB")]).contents) = some "SUB" := by decide +kernel
+    simp only [hc, Option.some.injEq] at hl
+    subst hl
+    have hs : (demoEnv2 []).fromYAML "SUB" = some demoSub := by decide +kernel
+    rw [hs] at hw
+    cases hw
+    cases hr with
+    | direct h' => simp [demoSub] at h'
+    | trans h' _ _ _ => simp [demoSub] at h'
+example : checkCycles (demoEnv2 []).fromYAML 5 demoRoot (memCache "/absent" "ROOT" [("sub.yaml", "SUB")]).contents [] = .ok () := by
+  decide +kernel
+-- a supplied sub-workflow that references a file that is only on disk: followed, loaded, merged
+example : resultTriple (runWorkflow (demoEnv2 [("/ctx/leaf.yaml", "SUB")]) 5 (memCache "/ctx" "ROOT" [("sub.yaml", "MID")]) "" "success") =
+      ("success", false, none) ∧
+    (match parseFiles (demoEnv2 [("/ctx/leaf.yaml", "SUB")]) 5 (memCache "/ctx" "ROOT" [("sub.yaml", "MID")]) "" with
+      | .ok (_, m) => (getFile "leaf.yaml" m.files).isSome && ((getFile "sub.yaml" m.files).map (·.content) == some "MID")
+      | .error _ => false) = true := by decide +kernel
+-- … and without the file on disk it is the read error
+example : (runWorkflow (demoEnv2 []) 5 (memCache "/ctx" "ROOT" [("sub.yaml", "MID")]) "" "success").err = some .readError := by
+  decide +kernel
+-- some sub-workflows supplied, the others on disk; also with a relative spelling of the root directory
+example : resultTriple (runWorkflow (demoEnv2 [("/ctx/other.yaml", "SUB")]) 5 (memCache "/ctx" "ROOT2" [("sub.yaml", "SUB")]) "" "success") =
+      ("success", false, none) ∧
+    resultTriple (runWorkflow (demoEnv2 [("/ctx/other.yaml", "SUB")]) 5 (memCache "ctx" "ROOT2" [("sub.yaml", "SUB")]) "" "success") =
+      ("success", false, none) := by decide +kernel
+
+/-- the caller's cyclic copy of `sub.yaml` over an acyclic copy on disk -/
+def cyclicCopy : FileCache := memCache "/ctx" "ROOT" [("sub.yaml", "CYC")]
+
+def acyclicDisk : List (String × String) := [("/ctx/sub.yaml", "SUB")]
+
+/-- the merged cache: the copy loaded from disk overridden by the caller's -/
+def cyclicMerged : FileCache :=
+  { rootDir := "/ctx"
+    files := [("sub.yaml", { id := "sub.yaml", absPath := "sub.yaml", content := "CYC" }),
+              ("workflow.yaml", { id := "workflow.yaml", absPath := "workflow.yaml", content := "ROOT" })] }
+
+/-- A caller-supplied cyclic copy of a sub-workflow over an acyclic copy on disk.  The discovery that is not handed the
+    caller's cache follows the disk copy and gets past the file stage; the contents that would be prepared are the
+    caller's and cyclic; the check on the merged contents reports it.  The discovery that is handed the caller's cache
+    reports the cycle itself.  Either way `Parse` returns the self-reference error — `Prepare` is not reached. -/
+theorem cyclic_copy_over_acyclic_disk_copy :
+    parseFilesWith (demoEnv2 acyclicDisk) false 5 cyclicCopy "" = .ok (demoRoot, cyclicMerged) ∧
+    (match parseWith (demoEnv2 acyclicDisk) false 5 cyclicCopy "" with
+      | .error .selfReference => true
+      | _ => false) = true ∧
+    (match parseWith (demoEnv2 acyclicDisk) true 5 cyclicCopy "" with
+      | .error .selfReference => true
+      | _ => false) = true := by decide +kernel
+
+-- the hypotheses of parse_rejects_cycles_in_used_files are satisfiable (by exactly that input)
+example : ∃ wf m q, parseFilesWith (demoEnv2 acyclicDisk) false 5 cyclicCopy "" = .ok (wf, m) ∧
+    KeyReach (demoEnv2 acyclicDisk).fromYAML (fun k => lookup k m.contents) wf q ∧
+    OnCycle (demoEnv2 acyclicDisk).fromYAML (fun k => lookup k m.contents) q :=
+  ⟨demoRoot, cyclicMerged, "sub.yaml", cyclic_copy_over_acyclic_disk_copy.1, .direct (by decide),
+    "CYC", demoCyc, by decide +kernel, by decide +kernel, .direct (by decide)⟩
 
 end Arca.Props.C20
